@@ -811,6 +811,7 @@ class ProximityStump(BaseClassifier):
         self.random_state = random_state
         self.get_distance_measure = get_distance_measure
         self.distance_measure = distance_measure
+        self.get_exemplars = get_exemplars
         self.pick_exemplars = get_exemplars
         self.get_gain = get_gain
         self.verbosity = verbosity
@@ -960,6 +961,7 @@ class ProximityStump(BaseClassifier):
         -------
         output : array of shape = [n_instances, n_classes] of probabilities
         """
+        self.check_is_fitted()
         X = check_X(X, enforce_univariate=True, coerce_to_pandas=True)
 
         X = negative_dataframe_indices(X)
@@ -1145,6 +1147,7 @@ class ProximityTree(BaseClassifier):
         -------
         output : array of shape = [n_instances, n_classes] of probabilities
         """
+        self.check_is_fitted()
         X = check_X(X, enforce_univariate=True, coerce_to_pandas=True)
         X = negative_dataframe_indices(X)
         closest_exemplar_indices = self.stump.find_closest_exemplar_indices(X)
@@ -1406,6 +1409,7 @@ class ProximityForest(BaseClassifier):
         -------
         output : array of shape = [n_instances, n_classes] of probabilities
         """
+        self.check_is_fitted()
         X = check_X(X, enforce_univariate=True, coerce_to_pandas=True)
         X = negative_dataframe_indices(X)
         if self.n_jobs > 1 or self.n_jobs < 0:
